@@ -144,13 +144,19 @@ package xpair1
 //@   before select#1 assert selwaits(s.sizeQ) && selsends(s.sendQ)
 //@
 // ---- end generated current-queue contracts ----
+//@
+//@ func (*pipe).sender
+//@   loop 1 invariant evcount("sent") == 0
+//@   ensures evcount("sent") == 0
+//@   before call:Free#1 assert !isnil(err)
 // ---- generated AddPipe contracts (tools/gen_addpipe_contracts.py) ----
 //@ func (*socket).AddPipe
 //@   ghost wasClosed = s.closed at call:Lock#1
 //@   ensures wasClosed ==> result == protocol.ErrClosed && !spawned("receiver") && !spawned("sender")
+//@   before go:sender#1 assert fresh(p.closeQ)
 //@
 // ---- end generated AddPipe contracts ----
 //@
-//@ func (*pipe).sender
-//@   loop 1 ensures evcount("sent") == at("loop1:head", evcount("sent"))
-//@   before call:Free#1 assert !isnil(err)
+//@ func (*socket).SetOption
+//@   ensures (name == protocol.OptionReadQLen || name == protocol.OptionWriteQLen) && isnil(result) ==> evcount("closed") == 1
+//@   ensures !isnil(result) ==> evcount("closed") == 0
